@@ -246,6 +246,12 @@ def gen_comb(streams):
         if g.random() < 0.15:
             cfg['square'] = True        # the same wire as both operands: x * x
             widths = widths[:1]
+        elif g.random() < 0.2:
+            # one operand is a Const (multiplication by a fixed coefficient)
+            ki = g.randrange(2)
+            cfg['const_operand'] = {'idx': ki, 'val': g.getrandbits(widths[ki])}
+            if signed and widths[ki] >= 2 and g.random() < 0.3:
+                cfg['const_operand']['val'] = 1 << (widths[ki] - 1)      # the most negative one
     elif gen == 'fused_multiply_adder':
         widths = [pick_width(g, small), pick_width(g, small), pick_width(g, small, 1, 16)]
         cfg['reducer'] = g.choice([None] + REDUCERS)
@@ -267,7 +273,8 @@ def gen_comb(streams):
         # all operands of one width (all-1-bit configurations are otherwise very rare)
         w = g.choice([1, 1, 2, widths[0]])
         widths = [max(2, w) if signed else w] * len(widths)
-    case = {'kind': 'comb', 'gen': gen, 'widths': widths, 'cfg': cfg}
+    case = {'kind': 'comb', 'gen': gen, 'widths': widths, 'cfg': cfg,
+            'under_condition': g.random() < 0.12}
     if g.random() < 0.25:
         # a second unit of the same generator on the very same operand wires, in the same
         # Block (e.g. a Wallace and a Dada multiplier side by side): each must be exact
@@ -535,7 +542,9 @@ def build_comb(pyrtl, case, blk, cfg=None, shared=None):
     if shared is not None and shared.get('xs'):
         xs = shared['xs']
     else:
-        xs = [pyrtl.Input(w, 'x%d' % i) for i, w in enumerate(ws)]
+        ko = case['cfg'].get('const_operand')
+        xs = [pyrtl.Const(ko['val'] & ((1 << w) - 1), bitwidth=w) if ko and ko['idx'] == i
+              else pyrtl.Input(w, 'x%d' % i) for i, w in enumerate(ws)]
         if shared is not None:
             shared['xs'] = xs
     kw = {}
@@ -651,7 +660,23 @@ def run_comb(case, res):
     try:
         with pyrtl.set_working_block(blk, no_sanity_check=True):
             shared = {}
-            r = build_comb(pyrtl, case, blk, shared=shared)
+            if case.get('under_condition'):
+                # the generator is instantiated inside a branch of an open conditional_assignment
+                # block of the caller's (a generator that is refused there is not judged; one
+                # that returns a wire must have built an exact unit)
+                cond = pyrtl.Input(1, 'cond')
+                try:
+                    with pyrtl.conditional_assignment:
+                        with cond:
+                            r = build_comb(pyrtl, case, blk, shared=shared)
+                except pyrtl.PyrtlError:
+                    from ..common import Inconclusive
+                    raise Inconclusive('generator refused inside a conditional_assignment block')
+                res.faults.hit('generator_instantiated_under_condition')
+                keep = pyrtl.Output(1, 'cond_o')
+                keep <<= cond
+            else:
+                r = build_comb(pyrtl, case, blk, shared=shared)
             rw = len(r)
             y = pyrtl.Output(rw, 'y')
             y <<= r
@@ -681,7 +706,14 @@ def run_comb(case, res):
     for vi, vec in enumerate(vectors):
         if len(vec) != len(vw) or any(not (0 <= v <= _mask(w)) for v, w in zip(vec, vw)):
             raise HarnessError('vector does not fit the operand widths')
-        sim.step(dict(zip(names, vec)))
+        ko = cfg.get('const_operand')
+        if ko:
+            vec = list(vec)
+            vec[ko['idx']] = ko['val'] & ((1 << ws[ko['idx']]) - 1)     # a Const, not an Input
+        step_ins = {n: v for n, v in zip(names, vec) if not (ko and n == 'x%d' % ko['idx'])}
+        if case.get('under_condition'):
+            step_ins['cond'] = vi % 2
+        sim.step(step_ins)
         got = sim.inspect('y')
         res.stateless += 1
         res.log.log('comb', 'vec', vec, got)
